@@ -1,3 +1,4 @@
+mod conc;
 mod http;
 mod node;
 mod seq;
@@ -12,6 +13,7 @@ fn main() {
     match args[1].as_str() {
         "seq" => seq::main(rest),
         "http" => http::main(rest),
+        "conc" => conc::main(rest),
         x => {
             eprintln!("unknown subcommand {}", x);
             std::process::exit(2);
